@@ -35,6 +35,10 @@ def run(rep: vlib.Reporter, tier: str, seed: int) -> None:
     install()
     pr = vlib.build_props("C06", extra_targets=["Model/OrchCheck.vo"])
     rep.proof(pr)
+    pr2 = vlib.build_props("C06conf")     # data plane: independent steps commute, linearisations agree, conflict_free => confluent
+    rep.proof(pr2)
+    pr.ok = pr.ok and pr2.ok
+    pr.failed_files += pr2.failed_files
     rep.coverage["trusted_base"] += [
         "Model/Orch.v (orchestrator) is proved mode-independent at the level of WHICH steps run and WHICH results are collected; "
         "the data plane (shared cfw.data read-modify-write, Flight upload/download) is not modelled: contents are compared on "
